@@ -164,7 +164,7 @@ def m_opt_unwrap_or_default(ctx, cty, a):
     o = a[0]
     if o.variant == 1:
         return o.fields[0]
-    raise Inconclusive("unwrap_or_default on None")
+    return default_for(ctx, generic_arg(cty, 0, -2))
 
 
 @model(OPT + "take")
